@@ -683,14 +683,33 @@ fn engine_case(rec: &mut Recorder, rng: &mut Rng, chaos: bool) {
         blocks.push(Blk { slot, hash, parent, known, chunks });
     }
     let mut cx = EngCx::new(rng, next_hash + 2);
+    // the same block delivered a second time by repair (as `Known`) after dissemination completed it as `Pending`:
+    // children that begin while the repair copy is still in progress must be seeded from the completed copy
+    let mut redelivery: BTreeMap<usize, usize> = BTreeMap::new();
+    if !chaos {
+        for i in 0..nblocks {
+            if !blocks[i].known && rng.chance(1, 3) {
+                let mut d = blocks[i].clone();
+                d.known = true;
+                redelivery.insert(i, blocks.len());
+                blocks.push(d);
+            }
+        }
+    }
     // per-block op streams, interleaved
     let mut streams: Vec<Vec<EOp>> = blocks
         .iter()
         .enumerate()
+        .take(nblocks)
         .map(|(i, b)| {
             let mut v = vec![EOp::Begin(i)];
             v.extend((0..b.chunks.len()).map(|c| EOp::Exec(i, c)));
             v.push(EOp::End(i));
+            if let Some(&j) = redelivery.get(&i) {
+                v.push(EOp::Begin(j));
+                v.extend((0..b.chunks.len()).map(|c| EOp::Exec(j, c)));
+                v.push(EOp::End(j));
+            }
             v.reverse();
             v
         })
@@ -842,6 +861,7 @@ fn engine_case(rec: &mut Recorder, rng: &mut Rng, chaos: bool) {
     for k in &kinds {
         rec.count(k);
     }
+    if !redelivery.is_empty() { rec.count("engine:block-redelivered-by-repair"); }
     rec.end_case(fnv(class, &format!("{kinds:?}{nblocks}")), kinds.len() == 2);
 }
 
